@@ -304,12 +304,19 @@ fn keyword_world(pos: &str, export: bool, names: &[&str]) -> String {
     out
 }
 
-fn kw_case(pos: &str, export: bool, names: &[&str]) -> Case {
+/// Identifiers the generated C++ itself relies on (member functions of the resource base
+/// classes in crates/cpp/helper-types/wit.h, the `exports` / `wit` / `std` namespaces): a WIT
+/// name that mangles to one of them collides with generated code rather than with a keyword.
+const RESERVED: &[&str] = &[
+    "dtor", "resource-new", "resource-rep", "resource-drop", "owned", "exports", "std", "wit",
+];
+
+fn kw_case(group: &str, pos: &str, export: bool, names: &[&str]) -> Case {
     let dir = if export { "export" } else { "import" };
     let world = if pos == "world-name" { names[0] } else { "tworld" };
     Case {
-        kind: format!("keyword:{pos}:{dir}"),
-        id: format!("keyword:{pos}:{dir}:{}", names.join(",")),
+        kind: format!("{group}:{pos}:{dir}"),
+        id: format!("{group}:{pos}:{dir}:{}", names.join(",")),
         input: Input::Texts(vec![(
             "kw.wit".into(),
             keyword_world(pos, export, names),
@@ -815,6 +822,7 @@ fn case_from_json(v: &Value) -> Case {
 fn main() {
     let mut run = vcommon::Run::from_args("C31", "exploration");
     vcommon::install_quiet_panic_hook();
+    tune_malloc();
     let repo = vcommon::repo_root();
 
     if let Some(d) = run.replay_detail() {
@@ -858,27 +866,45 @@ fn main() {
     for pos in POSITIONS {
         for export in [false, true] {
             if thorough {
-                for k in CPP_KEYWORDS {
-                    cases.push(kw_case(pos, export, &[k]));
-                    kw_worlds += 1;
-                }
-                if !single_only(pos) {
-                    // and all of them at once (names next to each other)
-                    cases.push(kw_case(pos, export, CPP_KEYWORDS));
-                    kw_worlds += 1;
+                for (group, list) in [("keyword", CPP_KEYWORDS), ("reserved", RESERVED)] {
+                    if single_only(pos) {
+                        for k in list {
+                            cases.push(kw_case(group, pos, export, &[k]));
+                            kw_worlds += 1;
+                        }
+                    } else {
+                        // all names of the list next to each other; a failing batch is re-run one name at a time below
+                        cases.push(kw_case(group, pos, export, list));
+                        kw_worlds += 1;
+                    }
                 }
             } else if single_only(pos) {
-                // one name per world: the first three of the task's list
-                for k in &quick_batch[..3] {
-                    cases.push(kw_case(pos, export, &[k]));
-                    kw_worlds += 1;
-                }
+                // one name per world: a different one of the task's list per position
+                let k = quick_batch[POSITIONS.iter().position(|p| p == pos).unwrap() % quick_batch.len()];
+                cases.push(kw_case("keyword", pos, export, &[k]));
+                kw_worlds += 1;
             } else {
-                cases.push(kw_case(pos, export, &quick_batch));
+                cases.push(kw_case("keyword", pos, export, &quick_batch));
                 kw_worlds += 1;
             }
         }
     }
+    if !thorough {
+        // quick: every third corpus entry and the export-side / mixed collision worlds only
+        let mut k = 0usize;
+        cases.retain(|c| {
+            if c.kind == "corpus" {
+                k += 1;
+                k % 3 == 1
+            } else if c.kind.starts_with("collision:") {
+                !c.kind.ends_with(":import")
+            } else {
+                true
+            }
+        });
+    }
+    let n_corpus_run = cases.iter().filter(|c| c.kind == "corpus").count();
+    let n_collision_run = cases.iter().filter(|c| c.kind.starts_with("collision:")).count();
     // development aid: `--only <substring>` restricts the run (never used by ./check)
     let only: Option<String> = run
         .extra_args
@@ -899,10 +925,10 @@ fn main() {
     for (i, r) in results.iter().enumerate() {
         if r["class"] == "gxx-error" && cases[i].names.len() > 1 {
             let parts: Vec<&str> = cases[i].kind.split(':').collect();
-            let pos = parts[1];
+            let (group, pos) = (parts[0], parts[1]);
             let export = parts[2] == "export";
             for nme in &cases[i].names {
-                extra_cases.push(kw_case(pos, export, &[nme.as_str()]));
+                extra_cases.push(kw_case(group, pos, export, &[nme.as_str()]));
             }
         }
     }
@@ -1002,12 +1028,12 @@ fn main() {
         "rule": "number of distinct generated `<world>.cpp` contents (FNV-1a of the bytes) that g++ accepted; a world counts only if the generator produced C++ and the compiler ran on it",
         "exhaustive": only.is_none(),
         "bounds": {
-            "corpus": format!("all {} entries of tests/codegen found by the discover_tests rule, minus {} declared exclusions", corpus.len() + excluded.len(), excluded.len()),
-            "keywords": if thorough { format!("{} C++20 keywords x {} name positions x import/export, one keyword per world, plus one all-keywords world per multi-name position", CPP_KEYWORDS.len(), POSITIONS.len()) } else { format!("the 10 keywords {:?} batched per world x {} name positions x import/export (3 single-name worlds for world/package/namespace names); failing batches are re-run one keyword at a time", &CPP_KEYWORDS[..10], POSITIONS.len()) },
-            "collisions": format!("{} catalogue worlds (mangling collisions)", collisions.len()),
+            "corpus": format!("{} of the {} entries of tests/codegen found by the discover_tests rule ({} declared exclusions removed{})", n_corpus_run, corpus.len() + excluded.len(), excluded.len(), if thorough { "" } else { "; quick takes every third remaining entry" }),
+            "keywords": if thorough { format!("all {} C++20 keywords and {} generator-reserved identifiers {:?} x {} name positions x import/export: one world per (position, direction) containing every name of the list (one world per name for world / package / namespace names); failing batches are re-run one name at a time", CPP_KEYWORDS.len(), RESERVED.len(), RESERVED, POSITIONS.len()) } else { format!("the 10 keywords {:?} in one world per (position, direction), {} name positions x import/export (one keyword for world / package / namespace names); failing batches are re-run one keyword at a time", &CPP_KEYWORDS[..10], POSITIONS.len()) },
+            "collisions": format!("{} of {} catalogue worlds (mangling collisions{})", n_collision_run, collisions.len(), if thorough { "" } else { "; quick skips the import-only variants" }),
         },
         "positions": POSITIONS,
-        "worlds": {"corpus": corpus.len(), "keyword": kw_worlds, "collision": collisions.len(), "minimisation_reruns": extra_cases.len()},
+        "worlds": {"corpus": n_corpus_run, "keyword": kw_worlds, "collision": n_collision_run, "minimisation_reruns": extra_cases.len()},
         "distinct_outcomes": class_counts,
         "kinds_with_a_compiled_world": kinds_compiled.len(),
         "generated_cpp_lines_compiled": total_lines,
